@@ -26,6 +26,7 @@ func (x *Run) paramVals(st *State, fn *ssa.Function) []Val {
 
 func (x *Run) verifyContract(con *Contract) []*State {
 	var finals []*State
+	x.curCon = con
 	run := func(args []Val, st *State) {
 		fr := &Frame{fn: con.Fn, env: map[ssa.Value]Val{}, names: map[string]Val{}, mode: ModeContractVerify, cut: map[*ssa.BasicBlock]bool{}, unroll: map[*ssa.BasicBlock]int{}, con: con}
 		outs := x.runFrame(fr, args, nil, st)
